@@ -970,13 +970,14 @@ func (em *emitter) emitUnaryOp(expr *ast.UnaryOperator, reg int8, regType reflec
 		case *ast.Selector:
 			// Address of a non-local variable.
 			if index, ok := em.varStore.nonLocalVarIndex(operand); ok {
-				if canEmitDirectly(operandKind, regType.Kind()) {
+				// The address is a pointer, whatever the kind of the variable.
+				if canEmitDirectly(reflect.Pointer, regType.Kind()) {
 					em.fb.emitGetVarAddr(index, reg)
 					return
 				}
-				r := em.fb.newRegister(operandKind)
+				r := em.fb.newRegister(reflect.Pointer)
 				em.fb.emitGetVarAddr(index, r)
-				em.changeRegister(false, r, reg, operandType, regType)
+				em.changeRegister(false, r, reg, em.types.PointerTo(operandType), regType)
 				return
 			}
 			expr := operand.Expr
